@@ -263,7 +263,7 @@ def ps6(ctx):
         b = ctx.f.bodies[i]
         fl = flow_of(b)
         opens = [cs for (p, e, cs) in ctx.E.direct_sites(b) if e == 'OPENRO']
-        syncs = [cs for (p, e, cs) in ctx.E.direct_sites(b) if e == 'FSYNC']
+        syncs = [cs for (p, e, cs) in ctx.E.direct_sites(b) if e == 'DIRFSYNC']
         exits = [e['point'] for e in b.ok_exits()]
         ok = False
         for o in opens:
@@ -515,3 +515,35 @@ def w1(ctx):
                     fcallers.add(b.path)
     badf = sorted(c for c in fcallers if not c.startswith('frame::reader::FrameReader'))
     ctx.check(not badf, 'forward-callers', '-', 'the writer is repositioned only by the reader->writer conversion', 'the writer is repositioned from %s' % badf, nontrivial=False)
+
+
+@rule('ROLL3', ['C02', 'C07'], floor=1, template='guard-polarity')
+def roll3(ctx):
+    """A write that would exceed the file size never reaches the file without a roll-over (offset reset)."""
+    from vocab import const_comparisons, switch_on_result
+    from rules_codec import expr_leaves
+    n = 0
+    for b in ctx.f.bodies.values():
+        if b.generic_dup():
+            continue
+        ws = [p for (p, e, cs) in ctx.E.direct_sites(b) if e == 'WRITE']
+        if not ws:
+            continue
+        for c in const_comparisons(ctx, b, 'FILE_NUM_BYTES'):
+            lv = expr_leaves(b, c['x'])
+            if not any(x[0] == 'place' and mem_loc(x[2]) == 'RollingWriter.offset' for x in lv):
+                continue
+            for (bj, te, fe) in switch_on_result(b, c):
+                exceed = te if c['op'] in ('Gt', 'Ge') else fe
+                resets = [p for (p, pl, rv) in b.stores if mem_loc(pl) == 'RollingWriter.offset' and rv['k'] == 'use' and op_const_bits(rv['op']) == 0]
+                # also a call to a helper that resets the offset
+                mw = ctx.E.maywrite()
+                for cs in b.calls:
+                    if cs.node is not None and 'RollingWriter.file' in mw.get(cs.node, set()) and 'RollingWriter.offset' in mw.get(cs.node, set()):
+                        resets.append(cs.point)
+                n += 1
+                r = b.reach([exceed[1]], avoid=resets)
+                ctx.check(bool(resets) and not any(w in r for w in ws), '%s:exceeding-write-rolls' % b.path, where(b, c['point']), 'from the `offset + len > FILE_NUM_BYTES` edge the write is only reachable through the roll-over',
+                          'a write that does not fit the current WAL file can reach the file without rolling over (inverted or missing test): files would grow beyond their fixed size and the reader, which reads FILE_NUM_BYTES per file, would never see the excess')
+    if n == 0:
+        ctx.missing('file-full-test', 'no comparison of the write offset with FILE_NUM_BYTES in the block writer')
